@@ -36,15 +36,15 @@ type tierCfg struct {
 }
 
 type harnessSpec struct {
-	Func     string   `json:"func"`
-	Pkg      string   `json:"pkg"`
-	Reach    []string `json:"reach"`  // witnesses that must be reached on at least one path
-	Quick    tierCfg  `json:"quick"`
-	Thorough tierCfg  `json:"thorough"`
-	About    string   `json:"about"`
-	Bounds   string   `json:"bounds"`
-	NoReplay bool     `json:"no_replay"`
-	FakeClock bool    `json:"fake_clock"` // native replay inside a testing/synctest bubble (built with go1.26.8) // counterexamples cannot be replayed natively (stated why in About)
+	Func      string   `json:"func"`
+	Pkg       string   `json:"pkg"`
+	Reach     []string `json:"reach"` // witnesses that must be reached on at least one path
+	Quick     tierCfg  `json:"quick"`
+	Thorough  tierCfg  `json:"thorough"`
+	About     string   `json:"about"`
+	Bounds    string   `json:"bounds"`
+	NoReplay  bool     `json:"no_replay"`
+	FakeClock bool     `json:"fake_clock"` // native replay inside a testing/synctest bubble (built with go1.26.8) // counterexamples cannot be replayed natively (stated why in About)
 }
 
 type propSpec struct {
@@ -116,20 +116,20 @@ func overlayFiles(id string, sp *propSpec) map[string]string {
 }
 
 type harnessResult struct {
-	Spec      harnessSpec
-	Report    *sym.Report
-	Confirmed []confirmedViolation
-	Unconfirmed []string
+	Spec            harnessSpec
+	Report          *sym.Report
+	Confirmed       []confirmedViolation
+	Unconfirmed     []string
 	TracesValidated int
 	TraceMismatches []string
-	MissingReach []string
+	MissingReach    []string
 }
 
 type confirmedViolation struct {
-	V       sym.Violation
-	Path    string
-	Known   *knownFinding
-	Native  string
+	V      sym.Violation
+	Path   string
+	Known  *knownFinding
+	Native string
 }
 
 func cmdRun(id string, args []string) int {
